@@ -293,8 +293,14 @@ def run_case(ctx):
             imag = bool(rng.random() < 0.3 and sc.imag_ok and not sc.name.startswith("pc-tdrk-"))
             src = a
             if sc.family in ("vmf", "cmf"):
+                # the matrix-unfolding schemes invert overlap matrices: redundant (zero-weight) bond directions, as sums
+                # leave them, are a documented limitation (8.2) - removed by a lossless compression to the Schmidt ranks
                 src = a.copy()
+                src.compress_config = lossless()
                 src.ensure_right_canonical()
+                vec = np.asarray(states.dense_of(src)).reshape(-1)
+                ranks = [1] + [max(1, dense.schmidt_rank(vec, gm.dims, c, rtol=1e-10)) for c in range(1, len(gm.dims))] + [1]
+                src.compress(temp_m_trunc=ranks)
                 src.canonicalise()
                 if max(src.bond_dims) > 24:
                     continue
